@@ -56,9 +56,11 @@ def builtin_norm_inf(x):
     return np.linalg.norm(x, np.inf)
 
 
-def builtin_dot_product(a, b):
+def builtin_dot_product(x, y):
+    # (argument names as documented in dagrt.function_registry.DotProduct,
+    # so that they can be passed by keyword)
     import numpy as np
-    return np.vdot(a, b)
+    return np.vdot(x, y)
 
 
 def builtin_elementwise_abs(x):
